@@ -15,7 +15,8 @@
 EXTENDS Naturals, Sequences, FiniteSets, TLC, Json
 
 CONSTANTS MaxOps
-Features == {"literal-none", "varargs-tuple", "alias-reexport", "foreign", "inherited-twice"}
+Features == {"literal-none", "varargs-tuple", "alias-reexport", "foreign", "inherited-twice",
+             "two-reexporters"}    \* a class re-exported by a deeper package that sorts before a shallower one (the model lists them in id order)
 Packages == { {f} : f \in Features } \cup { Features }
 Ops == {"gen-same", "gen-fresh"}
 
